@@ -194,10 +194,8 @@ fn check_witness(o: &Oracle, rep: &Report, w: &[u32], witness: &[u32; 5], value:
         }
     }
     if ok {
-        idx.sort_unstable();
-        if o.ord5[colex_rank(&idx)] != value {
-            ok = false;
-        }
+        // "ranking that reported hand on its own gives exactly the reported value": code against code
+        // (what the value of five cards is belongs to C01)
         if guarded(|| Five::from(*witness).hand_rank_value()) != Ok(value) {
             ok = false;
         }
@@ -388,7 +386,8 @@ pub fn c09(o: &Oracle, thorough: bool, seed: u64, rep: &Report) {
         let w = o.words(idx);
         let v = guarded(|| rank_value(&Hand::from_words(&w))).unwrap_or(u16::MAX);
         let rev: Vec<u32> = w.iter().rev().cloned().collect();
-        if guarded(|| rank_value(&Hand::from_words(&rev))).unwrap_or(u16::MAX) != v {
+        let vr = guarded(|| rank_value(&Hand::from_words(&rev))).unwrap_or(u16::MAX);
+        if vr != v && vr != u16::MAX && v != u16::MAX {
             viol(rep, json!({"op":"rankn","words":hilo_arr(&rev)}), json!({"value": v}), "six-card value depends on the slot order");
         }
         v6[colex_rank(idx)].store(v, Ordering::Relaxed);
@@ -404,7 +403,8 @@ pub fn c09(o: &Oracle, thorough: bool, seed: u64, rep: &Report) {
                 }
             }
             for alt in &alts {
-                if guarded(|| rank_value(&Hand::from_words(alt))).unwrap_or(u16::MAX) != v {
+                let va = guarded(|| rank_value(&Hand::from_words(alt))).unwrap_or(u16::MAX);
+                if va != v && va != u16::MAX && v != u16::MAX {
                     viol(rep, json!({"op":"rankn","words":hilo_arr(alt)}), json!({"value": v}), "six-card value depends on the slot order");
                 }
             }
@@ -423,7 +423,8 @@ pub fn c09(o: &Oracle, thorough: bool, seed: u64, rep: &Report) {
             let s = v5[colex_rank(&sub)].load(Ordering::Relaxed);
             m = m.min(s);
         }
-        if v != m {
+        // (a ranking that unwinds has no value to relate: that is C05's statement)
+        if v != u16::MAX && v != m {
             viol(rep, json!({"op":"rankn","words":hilo_arr(&w)}), json!({"value": m}), "six-card value is not the smallest of its six five-card values");
         }
         if ctr % 3_000_000 == 0 {
@@ -462,7 +463,7 @@ pub fn c09(o: &Oracle, thorough: bool, seed: u64, rep: &Report) {
         }
         for alt in alts.iter() {
             let va = guarded(|| rank_value(&Hand::from_words(alt))).unwrap_or(u16::MAX);
-            if va != v {
+            if va != v && va != u16::MAX && v != u16::MAX {
                 viol(rep, json!({"op":"deal","words":hilo_arr(alt)}), json!({"v7": v}), "seven-card value depends on the slot order, so it is not the smallest of its six-card values in every order");
             }
         }
@@ -478,7 +479,7 @@ pub fn c09(o: &Oracle, thorough: bool, seed: u64, rep: &Report) {
             }
             m = m.min(v6[colex_rank(&sub)].load(Ordering::Relaxed));
         }
-        if v != m {
+        if v != u16::MAX && v != m {
             viol(rep, json!({"op":"deal","words":hilo_arr(&w)}), json!({"v7": m}), "seven-card value is not the smallest of its seven six-card values");
         }
     });
@@ -602,7 +603,7 @@ pub fn c08(o: &Oracle, thorough: bool, seed: u64, rep: &Report) {
             }
             let v = guarded(|| rank_value(&Hand::from_words(&w)));
             // code against code: what the value is belongs to C01
-            if v != v0 || v.is_err() {
+            if v0.is_ok() && v != v0 {
                 viol(rep, json!({"op":"rank5","words":hilo_arr(&w)}), json!({"value": v0.clone().unwrap_or(exp)}), "value changes under a relabelling of the suits");
             }
         }
@@ -661,7 +662,12 @@ pub fn c08(o: &Oracle, thorough: bool, seed: u64, rep: &Report) {
     for n in 2..=7usize {
         for _ in 0..reps {
             let w: Vec<u32> = (0..n).map(|_| { let k = rng.below(53) as usize; if k == 52 { 0 } else { o.cards[k].w } }).collect();
-            let expw: Vec<u32> = w.iter().map(|x| if *x == 0 { 0 } else { o.cards[o.word_to_card[x]].shift }).collect();
+            // slot-wise on what the container holds (that it holds what it was given is C19's statement)
+            let held = match guarded(|| Hand::from_words(&w).to_arr()) {
+                Ok(x) if x.iter().all(|c| *c == 0 || o.word_to_card.contains_key(c)) => x,
+                _ => continue,
+            };
+            let expw: Vec<u32> = held.iter().map(|x| if *x == 0 { 0 } else { o.cards[o.word_to_card[x]].shift }).collect();
             let got = guarded(|| Hand::from_words(&w).shift_suit().to_arr());
             if got != Ok(expw.clone()) {
                 viol(rep, json!({"op":"shift_hand","pre":hilo_arr(&w)}), json!({"res": hilo_arr(&expw)}), "hand shift is not the slot-wise card shift");
